@@ -365,10 +365,14 @@ class ParseMachine(StateMachine):
             msg = "Completing current flag {} before moving on"
             debug(msg.format(self.flag))
         # Barf if we needed a value and didn't get one
+        missing = self.flag is not None and (
+            self.flag.raw_value is None
+            or (self.flag.kind is list and not self.flag_got_value)
+        )
         if (
             self.flag
             and self.flag.takes_value
-            and self.flag.raw_value is None
+            and missing
             and not self.flag.optional
         ):
             err = "Flag {!r} needed value and was not given one!"
